@@ -541,6 +541,15 @@ func (e *SpecEnv) call(n *ast.CallExpr) Value {
 		return IntV{Ite(Le(ConstI(0), a), a, Neg(a))}
 	case "cong":
 		return BoolV{App("cong", SBool, e.Int(arg(0)), e.Int(arg(1)), e.Int(arg(2)))}
+	case "bitlen":
+		// bitlen(x), x a uint64: what math/bits.Len64 returns (the executor's term for that call)
+		x := e.Int(arg(0))
+		if x.IsConst() {
+			return IntV{ConstI(int64(x.Val.BitLen()))}
+		}
+		l := App("bitlen", SInt, x)
+		e.fact(And(Le(ConstI(0), l), Le(l, ConstI(64))))
+		return IntV{l}
 	case "pow2":
 		a := e.Int(arg(0))
 		if a.IsConst() && a.Val.IsInt64() && a.Val.Int64() >= 0 && a.Val.Int64() < 4096 {
